@@ -22,16 +22,16 @@ func plansFor(thorough bool) []Plan {
 		// signatures, which costs milliseconds per case: it gets the complete n = 1 domain, the
 		// complete second pass for n <= 3 and a sample; the bare functions and the keyper
 		// handlers get everything
-		{Name: "base-n2", Domain: "base", Flavours: both, NSet: []int{2}, Emit: true, Heavy: true},
-		{Name: "base-n1", Domain: "base", Flavours: both, NSet: []int{1}, Emit: true, Access: true, History: true},
-		{Name: "mut-n12", Domain: "mut", Flavours: both, NSet: []int{1, 2}, Emit: true, Access: true, History: true},
-		{Name: "mut-n3", Domain: "mut", Flavours: both, NSet: []int{3}, Emit: true, Access: true, History: thorough},
+		{Name: "base-n2", Domain: "base", Flavours: both, NSet: []int{2}, Emit: true, Heavy: true, Assembly: "code"},
+		{Name: "base-n1", Domain: "base", Flavours: both, NSet: []int{1}, Emit: true, Access: true, History: true, Assembly: "both"},
+		{Name: "mut-n12", Domain: "mut", Flavours: both, NSet: []int{1, 2}, Emit: true, Access: true, History: true, Assembly: "both"},
+		{Name: "mut-n3", Domain: "mut", Flavours: both, NSet: []int{3}, Emit: true, Access: true, History: thorough, Assembly: "code"},
 		{Name: "mut-n4", Domain: "mut", Flavours: both, NSet: []int{4}, Emit: true, Access: thorough},
 	}
 	if !thorough {
 		plans = append(plans,
 			Plan{Name: "sample-n234-access", Domain: "sample", Flavours: []string{"gnosis"}, NSet: []int{2, 3, 4}, Sample: 2500, Emit: true, Access: true, History: true},
-			Plan{Name: "sample-n34", Domain: "sample", Flavours: both, NSet: []int{3, 4}, Sample: 20000, Emit: true, History: true})
+			Plan{Name: "sample-n34", Domain: "sample", Flavours: both, NSet: []int{3, 4}, Sample: 20000, Emit: true, History: true, Assembly: "code"})
 		return plans
 	}
 	// n = 3: complete enumeration on the bare functions, one TLC run per (flavour, threshold); they
@@ -45,7 +45,7 @@ func plansFor(thorough bool) []Plan {
 	}
 	plans = append(plans,
 		Plan{Name: "sample-n234-access", Domain: "sample", Flavours: []string{"gnosis"}, NSet: []int{2, 3, 4}, Sample: 40000, Emit: true, Access: true, History: true},
-		Plan{Name: "sample-n34", Domain: "sample", Flavours: both, NSet: []int{3, 4}, Sample: 150000, Emit: true, History: true})
+		Plan{Name: "sample-n34", Domain: "sample", Flavours: both, NSet: []int{3, 4}, Sample: 150000, Emit: true, History: true, Assembly: "both"})
 	return plans
 }
 
@@ -60,14 +60,19 @@ func assumptions() []string {
 	}
 }
 
-func universeOf(cs *Case, nU int) int {
+// universeOf picks the universe of a case; smallEon: among the even-numbered ones (eon inside
+// int32, needed by the assembly target).
+func universeOf(cs *Case, nU int, smallEon bool) int {
 	h := fnv.New32a()
 	h.Write([]byte(cs.CKey()))
+	if smallEon {
+		return 2 * int(h.Sum32()%uint32((nU+1)/2))
+	}
 	return int(h.Sum32() % uint32(nU))
 }
 
 // runAll executes the cases on the real code with a pool of workers.
-func runAll(workers int, cases []Case, us []*Universe, tg Targets, kp *KeyperEnv) []Line {
+func runAll(workers int, cases []Case, us []*Universe, tg Targets, kp *KeyperEnv, as *AssemblyEnv) []Line {
 	lines := make([]Line, len(cases))
 	var wg sync.WaitGroup
 	next := make(chan int, 1024)
@@ -76,7 +81,7 @@ func runAll(workers int, cases []Case, us []*Universe, tg Targets, kp *KeyperEnv
 		go func() {
 			defer wg.Done()
 			for i := range next {
-				lines[i] = RunCase(us[universeOf(&cases[i], len(us))], &cases[i], tg, kp)
+				lines[i] = RunCase(us[universeOf(&cases[i], len(us), tg.Assembly != "")], &cases[i], tg, kp, as)
 			}
 		}()
 	}
@@ -176,6 +181,7 @@ type runner struct {
 	c        *core.Ctx
 	us       []*Universe
 	kp       *KeyperEnv
+	as       *AssemblyEnv
 	lenRule  string
 	jvm      chan struct{} // bounds the number of validation JVMs
 	inflight chan struct{} // bounds the number of batches in memory
@@ -227,8 +233,11 @@ func (r *runner) batch(po *planOutcome, cases []Case, wg *sync.WaitGroup) {
 func (r *runner) doBatch(po *planOutcome, cases []Case) {
 	p := &po.plan
 	tg := Targets{Fn: true, Access: p.Access, Keyper: r.kp != nil && !p.NoKeyper}
+	if r.as != nil {
+		tg.Assembly = p.Assembly
+	}
 	t0 := time.Now()
-	lines := runAll(r.c.Workers, cases, r.us, tg, r.kp)
+	lines := runAll(r.c.Workers, cases, r.us, tg, r.kp, r.as)
 	runDur := time.Since(t0)
 	evals, nontriv := 0, 0
 	perTarget, accepted := map[string]int{}, map[string]int{}
@@ -351,7 +360,9 @@ func Check(c *core.Ctx) int {
 	}
 	kp, kpNote := NewKeyperEnv(c)
 	defer kp.Close()
-	r := &runner{c: c, us: us, kp: kp, lenRule: lenRule, jvm: make(chan struct{}, 8), inflight: make(chan struct{}, 10),
+	as, asNote := NewAssemblyEnv(c)
+	defer as.Close()
+	r := &runner{c: c, us: us, kp: kp, as: as, lenRule: lenRule, jvm: make(chan struct{}, 8), inflight: make(chan struct{}, 10),
 		seen: map[uint64]bool{}, exhaustN: map[string]bool{}}
 	if c.Thorough() {
 		r.deadline = c.Start.Add(18 * time.Minute)
@@ -397,7 +408,7 @@ func Check(c *core.Ctx) int {
 		wg.Add(1)
 		go func() {
 			defer wg.Done()
-			outs[0] = r.runPlan(Plan{Name: "known-witnesses", Domain: "fixed", Access: true}, witnessCases)
+			outs[0] = r.runPlan(Plan{Name: "known-witnesses", Domain: "fixed", Access: true, Assembly: "both"}, witnessCases)
 		}()
 	}
 	// light plans run concurrently; heavy plans one after the other, in the listed order
@@ -488,7 +499,7 @@ func Check(c *core.Ctx) int {
 			specLeads = append(specLeads, po.plan.Name+": "+g.SpecViol)
 		}
 		planInfo = append(planInfo, map[string]any{"plan": po.plan.Name, "domain": po.plan.Domain, "n": po.plan.NSet, "t": po.plan.TSel, "flavours": po.plan.Flavours,
-			"targets":             map[string]bool{"fn": true, "access": po.plan.Access, "keyper": kp != nil && !po.plan.NoKeyper},
+			"targets":             map[string]bool{"fn": true, "access": po.plan.Access, "keyper": kp != nil && !po.plan.NoKeyper, "assembly": as != nil && po.plan.Assembly != "", "assembly_rev": as != nil && po.plan.Assembly == "both"},
 			"tlc_distinct_states": g.Distinct, "tlc_states_generated": g.States, "cases": g.NumCases, "tlc_wall_s": g.Wall,
 			"run_s": po.runDur.Seconds(), "validation_jvm_s": po.valDur.Seconds(), "plan_wall_s": po.wall.Seconds(), "trace_lines": po.lines})
 		for _, d := range po.drift {
@@ -518,7 +529,7 @@ func Check(c *core.Ctx) int {
 			core.PrintKnown(kf)
 		}
 	}
-	if pm := kp.PinMismatches(); len(pm) > 0 {
+	if pm := append(kp.PinMismatches(), as.PinMismatches()...); len(pm) > 0 {
 		fmt.Printf("INCONCLUSIVE: the database double does not implement the repository's current SQL: %v\n", pm)
 		return core.ExitInconclusive
 	}
@@ -551,6 +562,7 @@ func Check(c *core.Ctx) int {
 		"known_finding_hits":        knownHits,
 		"design_counterexamples":    specLeads,
 		"keyper_pipeline":           kpNote,
+		"keyper_assembly":           asNote,
 		"universes":                 nU,
 		"code_shaped_spec_variant":  variant,
 	}
@@ -617,7 +629,13 @@ func Replay(c *core.Ctx) int {
 	u := NewUniverse(rf.Seed, rf.Universe, true)
 	kp, _ := NewKeyperEnv(c)
 	defer kp.Close()
-	line := RunCase(u, &cs, Targets{Fn: true, Access: true, Keyper: kp != nil}, kp)
+	as, _ := NewAssemblyEnv(c)
+	defer as.Close()
+	tgs := Targets{Fn: true, Access: true, Keyper: kp != nil}
+	if as != nil && rf.Universe%2 == 0 {
+		tgs.Assembly = "both"
+	}
+	line := RunCase(u, &cs, tgs, kp, as)
 	out, _ := json.Marshal(line)
 	fmt.Println(string(out))
 	d, _ := json.MarshalIndent(u.Describe(&cs), "", " ")
